@@ -74,6 +74,11 @@ func lexCase(c *explore.Ctx, s *explore.SubStats, text string, conformance, posi
 	s.Sample(func() any { return map[string]any{"input": text, "tokens": lexShape(m)} })
 	if conf != "" {
 		if !conformance {
+			if k, d, ok := extentOnlyDiff(im, m); ok && positions {
+				// same tokens at wrong offsets: a position defect
+				c.Report(s, explore.Violation{Key: k, Input: explore.J(lexInput{text}), Rendered: text, Detail: d})
+				return
+			}
 			s.Skipped++ // positions are only judged where the token streams agree (C03's business otherwise)
 			return
 		}
